@@ -38,8 +38,12 @@ def shutdown_judge(r, api_names=("close", "delete", "final-close"), steps=()):
     for e in r["events"] or []:
         if e["kind"] == "m.reply" and e["args"][2] in ("openSent", "openConfirm", "established"):
             approved[int(e["args"][0])] = True
+    # the first stop request: connections that had ended before it are not the shutdown's business
+    t_stop = min([a["at"] for a in r["api"] or [] if a["name"] in api_names] + [10 ** 9])
     for c in r["conns"] or []:
         if c.get("refused") or c["name"] in remote_closed:
+            continue
+        if c["eof"] and c.get("read_err") != "closed-locally" and c["eof_at"] < t_stop - 5:
             continue
         if not c["eof"] or c.get("read_err") == "closed-locally":
             bad.append("connection %s still open after shutdown returned (corebgp never closed it)" % c["name"])
@@ -139,6 +143,27 @@ def customs(rng, tier):
         out.append(Custom(sid, "stop.writers." + api,
                           [["dial", "c1"], ["recv", "c1", 1, 1000], ["send", "c1", OP, 0], ["send", "c1", KA, 0], ["sleep", 40],
                            ["writers", 4, 60, 200, "async"], ["sleep", 5], ["api", api]], passive=True))
+        sid += 1
+        # a second inbound connection from the same peer while the first is in progress / Established: whatever
+        # corebgp does with it, it must be closed by the time the stop returns
+        out.append(Custom(sid, "stop.second-inbound-in-progress." + api,
+                          [["dial", "c1"], ["recv", "c1", 1, 1000], ["dial", "c2"], ["sleep", 40], ["api", api], ["recv_eof", "c2", 800]],
+                          passive=True))
+        sid += 1
+        out.append(Custom(sid, "stop.second-inbound-back-to-back." + api,
+                          [["dial", "c1"], ["dial", "c2"], ["sleep", 60], ["api", api], ["recv_eof", "c1", 800], ["recv_eof", "c2", 800]],
+                          passive=True))
+        sid += 1
+        # shutdown on the second session of the same outbound FSM (after a reconnect)
+        out.append(Custom(sid, "stop.second-session-opensent." + api,
+                          [["accept", "c1", 2000], ["recv", "c1", 1, 1000], ["close", "c1"], ["recv_eof", "c1", 800], ["fullclose", "c1"],
+                           ["accept", "c2", 2500], ["recv", "c2", 1, 1000], ["sleep", 20], ["api", api]], idle_hold_ms=100, connect_retry_ms=300))
+        sid += 1
+        out.append(Custom(sid, "stop.second-session-established." + api,
+                          [["accept", "c1", 2000], ["recv", "c1", 1, 1000], ["send", "c1", OP, 0], ["send", "c1", KA, 0], ["recv", "c1", 2, 1000],
+                           ["send", "c1", S.frame(S.NOTIF, S.notif_body(6, 2)).hex(), 0], ["recv_eof", "c1", 800],
+                           ["accept", "c2", 2500], ["recv", "c2", 1, 1000], ["send", "c2", OP, 0], ["send", "c2", KA, 0], ["recv", "c2", 2, 1000],
+                           ["sleep", 20], ["api", api]], idle_hold_ms=100, connect_retry_ms=300))
         sid += 1
         # both connections up (collision in progress, no forcing)
         out.append(Custom(sid, "stop.two-connections." + api,
